@@ -80,12 +80,15 @@ SPEC = dict(
          "indices and ragged rows) and between registers (clone_from, dst = src.clone(), mem::swap, "
          "mem::replace), 40% of the cases opened by directed scenarios (clone_from into a shrunk destination "
          "with spare capacity, with_capacity + resizes crossing the capacity, fill/shrink/grow, lying len(), "
-         "zero-row / zero-capacity matrices, equal cells through different histories), plus the 248 directed "
+         "zero-row / zero-capacity matrices, equal cells through different histories), plus the 253 directed "
          "cases of corpus/C19. After EVERY op, for EVERY register: rows(), stride(), row addresses mod "
          "alignment and spacing, ravel() length and layout, whether ravel() is uniform (after fill: padding "
          "written too), capacity(), all logical cells (80% small values, 20% extremes of the element type), "
          "and == / != for all "
          "9 register pairs; finally per register iter(), iter().rev(), (&m).into_iter(), (&mut m).into_iter(), "
+         "a random pattern of positional calls next()/next_back()/nth(k)/nth_back(k) on iter()/iter_mut()/into_iter() with len() "
+         "after each call, and the std adaptors built on them (skip, rev().skip, step_by, rev().step_by, last, count) - "
+         "judged against the extracted take_steps / steps_lens (C19_iteration_steps, C19_iteration_skip_adaptors), "
          "a random next()/next_back() pattern continued past exhaustion on iter()/iter_mut()/into_iter with "
          "len() after each call, ==/clone, == against a copy with other history/capacity/padding, == after "
          "one changed cell. PROPFAIL is decided by the extracted checker check_C19 (proved sound and complete "
